@@ -405,7 +405,7 @@ func (h *c01Harness) span(a map[string]any) *types.Span {
 	return &types.Span{
 		TraceID: h.ids[verifkit.Str(a, "t")],
 		IsRoot:  verifkit.Bool(a, "root"),
-		Event: &types.Event{APIHost: "http://api", APIKey: "c9945edf5d245834089a1bd6cc9ad01e", Dataset: "ds",
+		Event: &types.Event{Context: context.Background(), APIHost: "http://api", APIKey: "c9945edf5d245834089a1bd6cc9ad01e", Dataset: "ds",
 			SampleRate: uint(verifkit.Int(a, "crate")), Data: pl},
 	}
 }
